@@ -447,7 +447,12 @@ Definition portal_of (before after : state) (wm : N * imeta) : option op :=
             | Some cs =>
                 match nfind (fst (snd wm)) (s_nodes cs) with
                 | None => None
-                | Some ty => Some (OpenPortal pk w (fst (snd wm)) (Some ty))
+                | Some ty =>
+                    (* only when the portal's owner already exists before the tick *)
+                    match validate_owner before pk with
+                    | Ok _ => Some (OpenPortal pk w (fst (snd wm)) (Some ty))
+                    | Err _ => None
+                    end
                 end
             end
           else None
@@ -500,6 +505,10 @@ Definition diff_node_atts (w : N) (b a : store) (skipa : list akey) : list op :=
               if opt_eqb att_eqb bv av then [] else
               if mem_key (node_alpha w n) skipa then [] else [SetAtt (node_alpha w n) av]) (s_nodes a).
 
+(* edge_is_recreated: a same-id edge that must be replayed as DeleteEdge + UpsertEdge *)
+Definition recreated (a : store) (rb ra : erec) : bool :=
+  negb (e_from rb =? e_from ra) || (negb (e_to rb =? e_to ra) && negb (nmem (e_to rb) (s_nodes a))).
+
 Definition diff_edges (w : N) (b a : store) : list op :=
   flat_map (fun er => if nmem (fst er) (s_edges a) then [] else [DeleteEdge w (e_from (snd er)) (fst er)])
            (s_edges b) ++
@@ -510,17 +519,23 @@ Definition diff_edges (w : N) (b a : store) : list op :=
               | None => [UpsertEdge w e (e_from ra) (e_to ra) (e_ty ra)]
               | Some rb =>
                   if erec_eqb rb ra then [] else
-                  (if e_from rb =? e_from ra then [] else [DeleteEdge w (e_from rb) e]) ++
+                  (if recreated a rb ra then [DeleteEdge w (e_from rb) e] else []) ++
                   [UpsertEdge w e (e_from ra) (e_to ra) (e_ty ra)]
               end) (s_edges a).
+
+(* `recreated_with_value`: DeleteEdge clears the slot of a recreated edge, its value must be written again *)
+Definition recreated_with_value (b a : store) (e : N) (ra : erec) : bool :=
+  (match nfind e (s_eatt a) with Some _ => true | None => false end) &&
+  (match nfind e (s_edges b) with Some rb => recreated a rb ra | None => false end).
 
 Definition diff_edge_atts (w : N) (b a : store) (skipa : list akey) : list op :=
   flat_map (fun er =>
               let e := fst er in
               let bv := nfind e (s_eatt b) in
               let av := nfind e (s_eatt a) in
-              if opt_eqb att_eqb bv av then [] else
-              if mem_key (edge_beta w e) skipa then [] else [SetAtt (edge_beta w e) av]) (s_edges a).
+              let rwv := recreated_with_value b a e (snd er) in
+              if opt_eqb att_eqb bv av && negb rwv then [] else
+              if mem_key (edge_beta w e) skipa && negb rwv then [] else [SetAtt (edge_beta w e) av]) (s_edges a).
 
 (* diff_instance (b = before store, a = after store) *)
 Definition diff_instance (w : N) (b a : store) (skipn : list (N * N)) (skipa : list akey) : list op :=
@@ -590,56 +605,3 @@ Definition refb (st : state) : bool := forallb (fun ws => store_refb (snd ws)) (
 Definition pib (st : state) : bool :=
   match validate_portal_invariants st with Ok _ => true | Err _ => false end.
 Definition wfb (st : state) : bool := wfsb st && refb st && pib st.
-
-(* ------------------------------------------------------------------ exclusions (see Props/C04.v) *)
-
-(* an edge kept under the same id whose source node changed *)
-Definition reparented (b a : store) (e : N) : bool :=
-  match nfind e (s_edges b), nfind e (s_edges a) with
-  | Some rb, Some ra => negb (e_from rb =? e_from ra)
-  | _, _ => false
-  end.
-
-(* the diff re-establishes the attachment of every re-parented edge that has one afterwards *)
-Definition reparent_ok_store (w : N) (b a : store) (skipa : list akey) : bool :=
-  forallb (fun er =>
-             let e := fst er in
-             negb (reparented b a e) ||
-             match nfind e (s_eatt a) with
-             | None => true
-             | Some _ => negb (opt_eqb att_eqb (nfind e (s_eatt b)) (nfind e (s_eatt a))) &&
-                         negb (mem_key (edge_beta w e) skipa)
-             end) (s_edges a).
-
-Definition reparent_ok (before after : state) : bool :=
-  let skipa := skip_atts (portal_ops before after) in
-  forallb (fun ws =>
-             match get_store before (fst ws) with
-             | None => true
-             | Some bs => reparent_ok_store (fst ws) bs (snd ws) skipa
-             end) (st_stores after).
-
-(* an edge kept in its source bucket whose target moved away from a node that is deleted *)
-Definition retarget_ok_store (b a : store) : bool :=
-  forallb (fun er =>
-             match nfind (fst er) (s_edges b) with
-             | Some rb =>
-                 negb (e_from rb =? e_from (snd er)) || (e_to rb =? e_to (snd er)) ||
-                 nmem (e_to rb) (s_nodes a)
-             | None => true
-             end) (s_edges a).
-
-Definition retarget_ok (before after : state) : bool :=
-  forallb (fun ws =>
-             match get_store before (fst ws) with
-             | None => true
-             | Some bs => retarget_ok_store bs (snd ws)
-             end) (st_stores after).
-
-(* the owner of every canonicalised portal already exists before the tick *)
-Definition portal_owner_ok (before after : state) : bool :=
-  forallb (fun o => match o with
-                    | OpenPortal k _ _ _ =>
-                        match validate_owner before k with Ok _ => true | Err _ => false end
-                    | _ => true
-                    end) (portal_ops before after).
